@@ -10,7 +10,7 @@
    loop, re-poll, cancel at the await point, try_recv, drop). *)
 From SV Require Import Base.Prelude Model.Sched Model.MergeChan Proofs.MergeChan_proofs Proofs.MergeChan_thms.
 From SV Require Import Model.MetaUpdate Proofs.MetaUpdate_proofs Model.ClusterLoop Proofs.ClusterLoop_proofs.
-From SV Require Import Model.FetchPlan Proofs.FetchPlan_proofs.
+From SV Require Import Model.FetchPlan Proofs.FetchPlan_proofs Proofs.Chain_proofs.
 From Coq Require Import Permutation.
 Open Scope N_scope.
 
@@ -215,21 +215,28 @@ Proof. exact loop_eventually. Qed.
    resolution (resolve) through hook verif_fetch_plan, exactly.  NOT TIED (proved, pinned by a census
    of start_due_fetches / work_on_cc): the starter step and the worker transitions. ---- *)
 
-(* The next three statements are UNFOLDINGS of the model functions note_* / start_due (proofs: repeat split /
-   unfold + reflexivity); start_due is not extracted - they document how the model is written, a census pins the
-   four source fragments they correspond to. *)
-(* a due full fetch subsumes all partial work *)
-Theorem C19_plan_full_subsumes : forall p,
-  note_full p = PFull /\ (forall r, note_routes r PFull = PFull) /\ note_topology PFull = PFull.
-Proof. exact full_subsumes. Qed.
-(* the starter step: a full fetch that is owed (or whose deadline passed) starts unless one is running,
-   empties the plan and replaces every running partial fetch; while a full fetch runs nothing starts and
-   the plan keeps what it is owed; otherwise each partial type starts iff owed and its slot is free *)
-Theorem C19_start_due_full : forall d nx fl p, is_full fl = false -> (p = PFull \/ d = true) ->
-  start_due d nx fl p = (IFull nx, plan_empty, nx + 1).
-Proof. exact start_due_full. Qed.
-Theorem C19_start_due_blocked : forall d nx f p, start_due d nx (IFull f) p = (IFull f, p, nx).
-Proof. exact start_due_blocked. Qed.
+(* the starter step (start_due_fetches) - statements with content about the untied model function start_due:
+   no owed work is ever dropped except by covering it with a full fetch: afterwards a full fetch runs, or every
+   owed client-routes pair / the owed topology re-read is still owed or has just been started in a slot that was
+   free, and fetches in flight are only ever replaced by a full fetch; a full fetch owed by the plan runs *)
+Theorem C19_start_due_preserves_work : forall d nx fl p fl' p' nx', start_due d nx fl p = (fl', p', nx') ->
+  (p = PFull -> is_full fl' = true) /\
+  (is_full fl' = true \/
+   (p' <> PFull /\
+    (forall r, In r (plan_routes p) -> In r (plan_routes p') \/ (routes_slot fl = None /\ routes_slot fl' = Some nx)) /\
+    (plan_topology p = true -> plan_topology p' = true \/ (topology_slot fl = None /\ exists g, topology_slot fl' = Some g /\ nx <= g)) /\
+    (forall f, routes_slot fl = Some f -> routes_slot fl' = Some f) /\
+    (forall f, topology_slot fl = Some f -> topology_slot fl' = Some f))) /\
+  nx <= nx'.
+Proof. exact start_due_preserves_work. Qed.
+(* a full fetch runs after the step iff one ran before, or the plan owed one, or the deadline had passed *)
+Theorem C19_start_due_full_iff : forall d nx fl p fl' p' nx', start_due d nx fl p = (fl', p', nx') ->
+  (is_full fl' = true <-> is_full fl = true \/ p = PFull \/ d = true).
+Proof. exact start_due_full_iff. Qed.
+(* the step is idempotent: run again right away it starts nothing more *)
+Theorem C19_start_due_idempotent : forall d nx fl p fl' p' nx', start_due d nx fl p = (fl', p', nx') ->
+  start_due false nx' fl' p' = (fl', p', nx').
+Proof. exact start_due_idempotent. Qed.
 
 (* every refresh request ever sent is, in order, answered / pending in the worker / still queued:
    none is lost, none is answered twice *)
@@ -253,7 +260,45 @@ Proof.
   eexists. split; [reflexivity|]. split; reflexivity.
 Qed.
 
+(* ---- THE CHAIN in ONE system (Proofs/Chain_proofs.v: the metadata worker of FetchPlan.v and the cluster worker of
+   ClusterLoop.v over the MetadataUpdate of MetaUpdate.v, every publishing transition of the producer performing its
+   merge into the consumer's slot in the same step).  Proved about the composed MODEL; no part of the composition is
+   extracted or compared with the code. ---- *)
+(* in every reachable state: (1) every refresh request sent is, in order, answered by the producer (attached to a
+   published fetch, or with an error) / pending / queued; (2) the requests the producer has published correspond one to
+   one, in order, to the response channels merged into the channel, and each of those is answered by the consumer, being
+   applied, or still attached to the slot; (3) each published request was attached to a fetch that started after the
+   request had been received *)
+Theorem C19_chain_inv : forall s, reachable cstep c_init s ->
+  map fst (f_answers (fst s)) ++ pending_list (fst s) ++ f_queue (fst s) = f_arrived (fst s) /\
+  List.length (attached (f_answers (fst s))) = List.length (w_refresh_requested (snd s)) /\
+  w_refresh_answered (snd s) ++ applying_responses (snd s) ++ responses_slot (w_slot (snd s)) = w_refresh_requested (snd s) /\
+  (forall r f, In (r, AAttached f) (f_answers (fst s)) -> exists rs, In (f, rs) (f_started (fst s)) /\ In r rs).
+Proof. exact chain_inv. Qed.
+(* every request merged (published) before is answered after the publish: at most `owed` consumer steps - no new
+   request or merge meanwhile, the consumer's awaits assumed to terminate - lead to a state in which the consumer has
+   answered exactly as many response channels as the producer has published requests, and the slot is empty *)
+Theorem C19_chain_eventually : forall s, reachable cstep c_init s ->
+  exists ls s', forallb (fun lb => match lb with CW l => is_worker_label l | CF _ => false end) ls = true /\
+    run cstep s ls = Some s' /\ (List.length ls <= owed (snd s))%nat /\ fst s' = fst s /\
+    List.length (w_refresh_answered (snd s')) = List.length (attached (f_answers (fst s))) /\
+    w_slot (snd s') = None.
+Proof. exact chain_eventually. Qed.
+
 (* non-vacuity *)
+(* the chain end to end: two requests published while the consumer applies an earlier update are merged in the slot and
+   both answered by one later application *)
+Example C19_ex_chain :
+  option_map (fun s => (f_answers (fst s), w_refresh_answered (snd s), w_refresh_requested (snd s), owed (snd s)))
+    (run cstep c_init [CF (FStarter true); CF (FDone (fun _ => true) true); CW LSelectUpdate;
+                       CF (FSend 7); CF FRecv; CF (FStarter false); CF (FDone (fun _ => true) true);
+                       CF (FSend 8); CF FRecv; CF (FStarter false); CF (FDone (fun _ => true) true);
+                       CW LFinishApply; CW LSelectUpdate; CW LFinishApply])
+  = Some ([(7, AAttached 1); (8, AAttached 2)], [2; 3], [2; 3], O) /\
+  cstep c_init (CW (LMerge MTopology)) = None /\
+  start_due false 4 (IPartial (Some 1) None) (PPartial [9] true) = (IPartial (Some 1) (Some 4), PPartial [9] false, 5) /\
+  start_due true 4 (IPartial (Some 1) (Some 2)) (PPartial [9] true) = (IFull 4, plan_empty, 5).
+Proof. repeat split; vm_compute; reflexivity. Qed.
 (* a topology event, then a refresh request while the partial fetch runs: the full fetch preempts it;
    a second request waits in the channel until the first full fetch is done and gets its own, later, fetch *)
 Example C19_ex_fetch :
@@ -388,9 +433,11 @@ Print Assumptions C19_loop_enabled.
 Print Assumptions C19_loop_decreases.
 Print Assumptions C19_loop_all_answered.
 Print Assumptions C19_loop_eventually.
-Print Assumptions C19_plan_full_subsumes.
-Print Assumptions C19_start_due_full.
-Print Assumptions C19_start_due_blocked.
+Print Assumptions C19_start_due_preserves_work.
+Print Assumptions C19_start_due_full_iff.
+Print Assumptions C19_start_due_idempotent.
+Print Assumptions C19_chain_inv.
+Print Assumptions C19_chain_eventually.
 Print Assumptions C19_fetch_conservation.
 Print Assumptions C19_fetch_fresh.
 Print Assumptions C19_fetch_request_starts_full.
